@@ -23,8 +23,8 @@ META = {
                  'lemmas over ordered dictionaries and induction on the declaration list) on a hand-written Gallina model of '
                  'property_wizard.py + differential correspondence and direct predicates on generated class source text',
     'design_ref': 'DESIGN.md section 4 C16',
-    'theorems': ['C16_matrix_partial', 'C16_matrix_size', 'C16_signature', 'C16_many_faithful', 'C16_many_partial',
-                 'C16_assign', 'C16_factory_fresh', 'C16_readonly_untouched', 'C16_refuted_plain_default'],
+    'theorems': ['C16_matrix', 'C16_matrix_size', 'C16_signature', 'C16_many', 'C16_many_fields_first',
+                 'C16_assign', 'C16_factory_fresh', 'C16_readonly_untouched'],
     'tables': [],
     'level_text': ('Theorems proved in Coq about an executable model of property_wizard.py + the part of dataclasses it relies on: '
                    'the whole style x default-kind x annotation-kind matrix by computation, and for ALL declaration lists with distinct '
@@ -46,7 +46,6 @@ META = {
                     'plain class-level defaults are immutable values; mutable defaults come from default_factory'],
 }
 
-FID = 'F22-propwiz-plain-default-ignored'
 
 # --------------------------------------------------------------------------- types
 CONC_SRC = {'int': 'int', 'str': 'str', 'float': 'float', 'bool': 'bool', 'bytes': 'bytes', 'tuple': 'tuple',
@@ -219,8 +218,9 @@ def declared_default(d):
     return x if x is not None else implied(t)
 
 
-def in_known_region(d):
-    """F22: underscored property + public field + plain value + annotation whose implied default is a factory."""
+def in_f25_shape(d):
+    """shape of the repaired finding F25 (underscored property + public field + plain value + annotation implying
+    a default_factory): only used to label the input distribution - nothing is suppressed"""
     return (d['kind'] == 'prop' and d['style'] == 'UnderPub' and d.get('rhs') is not None and d['rhs'][0] == 'val'
             and isinstance(implied(d['ty']), tuple))
 
@@ -844,22 +844,11 @@ def nontrivial(case):
     return d['kind'] == 'prop' and not (d.get('rhs') is None and d['ty'][0] == 'conc')
 
 
-def load_witness(ctx):
-    f = ctx.finding(FID)
-    return f['witness'] if f else None
-
-
 def run(ctx):
     cases = matrix_cases() + random_cases(ctx)
     ex = exotic_cases(ctx)
     allc = cases + ex
     impl = ctx.impl('c16', payload(allc))['classes']
-
-    # ---- known finding: replay the witness ----
-    f = ctx.finding(FID)
-    if f is not None:
-        ok = replay(ctx, f['witness'], quiet=True)
-        ctx.known_finding(FID, still_fails=not ok)
 
     # ---- model side ----
     model = None
@@ -874,7 +863,8 @@ def run(ctx):
         ctx.count(1, key=c['src'] + json.dumps(c['calls'], sort_keys=True), nontrivial=nontrivial(c))
         ctx.hist('stream', c['tag'])
         ctx.hist('n_decls', len(c['decls']))
-        known = any(in_known_region(d) for d in c['decls'])
+        if any(in_f25_shape(d) for d in c['decls']):
+            ctx.hist('f25_shape_covered', c['tag'].split('/')[0])
         # ---- direct predicate: the implementation against the independent reference ----
         if c['domain']:
             exp = reference_text(c['decls'], c['calls'], c['queries'], c['getters'])
@@ -885,14 +875,10 @@ def run(ctx):
                     ctx.hist('ann_kind', d['ty'][0])
                     ctx.hist('default_kind', 'none' if d['rhs'] is None else (d['rhs'][0] if d['rhs'][0] == 'val' else
                                                                               'field_' + ('default' if 'default' in d['rhs'][1] else 'factory' if 'factory' in d['rhs'][1] else 'empty')))
-            if got != exp:
-                if known and ctx.is_open_region(FID):
-                    ctx.hist('known_region', FID)
-                else:
-                    ctx.violation('field-property class behaves differently from the specification (%s): expected %r, observed %r'
-                                  % (c['tag'], first_diff(exp, got)[0], first_diff(exp, got)[1]), replay_obj(c))
-            elif known and ctx.is_open_region(FID):
-                ctx.hist('known_region_but_ok', FID)
+            if got != exp and len(ctx.violations) < 8:
+                x, y = first_diff(exp, got)
+                ctx.violation('field-property class behaves differently from the specification (%s): expected %r, observed %r'
+                              % (c['tag'], x, y), replay_obj(c))
         # ---- correspondence ----
         if model is not None:
             ctx.traces_validated += 1
